@@ -90,6 +90,13 @@ def setup(M):
                 bad = []
                 if exp is None or not same(x, exp):
                     bad.append("element")
+                elif unit not in UNITS[:4] and k:
+                    # fixed-length units: the k-th value is k*n units of elapsed time after the start (own clock when naive)
+                    step = {"hours": 3600 * US, "minutes": 60 * US, "seconds": US, "microseconds": 1}[unit] * sgn * k * amount
+                    if isinstance(start, dt.datetime):
+                        okm = (wall_us(x) == wall_us(start) + step) if start.tzinfo is None else (inst(x) == inst(start) + step)
+                        if not okm:
+                            bad.append("element-model")
                 elif unit in UNITS[:4] and k:
                     # independent calendar model of "start shifted by k*n units" (the library's own add() is not the judge here)
                     bad += _model_problems(start, unit, sgn * k * amount, x)
